@@ -24,8 +24,18 @@ def _sbc_sig(cl):
 
 
 def _structures(log):
+    """the generated structures plus, for the first one, a permuted copy and a slightly rattled copy: SAME cell, SAME atom
+    count, other positions / atom order (what a cache keyed on too little would confuse)"""
+    import numpy as np
     from vlib.gen import messy
-    return [messy.build(d) for d in log["structures"]]
+    pool = [messy.build(d) for d in log["structures"]]
+    s0 = pool[0]
+    r = np.random.RandomState(12345 + len(s0))
+    pool.append(s0[r.permutation(len(s0))])
+    s3 = s0.copy()
+    s3.set_positions(s3.get_positions() + r.normal(scale=0.05, size=(len(s0), 3)))
+    pool.append(s3)
+    return pool
 
 
 class Runner:
@@ -114,7 +124,7 @@ def _worker(args):
                 self.log["ctor"] = ctor if kind != "sbc" else {}
                 self.runner = Runner(self.log)
 
-            @rule(k=st.integers(0, 1), j=st.integers(0, 2))
+            @rule(k=st.integers(0, 3), j=st.integers(0, 2))
             def call(self, k, j):
                 self.log["steps"].append([k, j])
                 counts["calls"] += 1
